@@ -753,9 +753,89 @@ def r_sortshape(f):
                 if any(b.blocks[x]["term"] and b.blocks[x]["term"]["k"] == "return" for x in reach) and not any(touches_entries(x) for x in reach) \
                         and not any(touches_entries(x) for x in (b.dominators().get(bi, set()) | {bi})):
                     bad7.append((t.get("span") or bl["stmts"][-1]["span"] if bl["stmts"] else None, c_, op))
-        R.inst(b.ident, "s7 no exit on the length alone is open to a length of two", not bad7)
+        # s7b: the same for an exit taken on a COUNT of entries (a usize local that starts at 0 and only ever grows by 1): a
+        # permutation cannot displace exactly one entry, so two is the smallest count that needs a swap; an exit that hands back an
+        # EMPTY trace (`&mut ordering[..0]`) must not be open to a count of two
+        counters = set()
+
+        def cint(e7):
+            e7 = strip(e7)
+            if e7[0] == "const":
+                m7 = re.match(r"^(?:const )?(\d+)_[iu]\w+$", str(e7[1]))
+                return int(m7.group(1)) if m7 else None
+            return None
+        nd7 = {}
+        for _, _, st in b.stmts():
+            if st["k"] == "assign" and not st["p"]["proj"]:
+                nd7.setdefault(st["p"]["local"], []).append(st)
+        for l7, ds7 in nd7.items():
+            if not re.match(r"^[iu](8|16|32|64|128|size)$", str(b.locals[l7])) or l7 <= b.arg_count:
+                continue
+            zero_init = [x for x in ds7 if x["rv"]["k"] == "use" and x["rv"]["o"]["k"] == "const" and re.match(r"^(const )?0_[iu]\w+$", str(x["rv"]["o"].get("val", "")))]
+            others = [x for x in ds7 if x not in zero_init]
+            if len(zero_init) == 1 and others and all(strip(d.rvalue(x["rv"]))[0] in ("bin", "field") for x in others):
+                incs = [strip(d.rvalue(x["rv"])) for x in others]
+                def is_inc(e7, depth=0):
+                    e7 = strip(e7)
+                    if e7[0] == "field" and depth < 2:      # (AddWithOverflow(..)).0
+                        return is_inc(e7[1], depth + 1)
+                    return e7[0] == "bin" and str(e7[1]).startswith("Add") and (cint(e7[3]) == 1 or cint(e7[2]) == 1)
+                if all(is_inc(e7) for e7 in incs):
+                    counters.add(l7)
+        for bi, bl in enumerate(b.blocks):
+            t = bl["term"]
+            if not t or t["k"] != "switch" or bl["cleanup"] or not counters:
+                continue
+            dl = t["discr"]
+            if dl["k"] not in ("copy", "move") or dl["p"]["proj"]:
+                continue
+            ds7 = nd7.get(dl["p"]["local"], [])
+            if len(ds7) != 1 or ds7[0]["rv"]["k"] != "binop" or ds7[0]["rv"]["op"] not in ("Lt", "Le", "Gt", "Ge", "Eq", "Ne"):
+                continue
+            def cnt_of(o):
+                for _ in range(3):
+                    if o["k"] not in ("copy", "move") or o["p"]["proj"]:
+                        return None
+                    l_ = o["p"]["local"]
+                    if l_ in counters:
+                        return l_
+                    dd = nd7.get(l_, [])
+                    if len(dd) == 1 and dd[0]["rv"]["k"] == "use":
+                        o = dd[0]["rv"]["o"]; continue
+                    return None
+                return None
+            lo, ro, op = ds7[0]["rv"]["l"], ds7[0]["rv"]["r"], ds7[0]["rv"]["op"]
+            cl, cr = cnt_of(lo), cnt_of(ro)
+            kl = cint(d.expr(lo)) if cl is None else None
+            kr = cint(d.expr(ro)) if cr is None else None
+            if cl is not None and kr is not None:
+                c_ = kr
+            elif cr is not None and kl is not None:
+                c_, op = kl, {"Lt": "Gt", "Le": "Ge", "Gt": "Lt", "Ge": "Le", "Eq": "Eq", "Ne": "Ne"}[op]
+            else:
+                continue
+            holds2 = {"Lt": 2 < c_, "Le": 2 <= c_, "Gt": 2 > c_, "Ge": 2 >= c_, "Eq": 2 == c_, "Ne": 2 != c_}[op]
+            tm = [(int(a_), b2) for a_, b2 in t["targets"]]
+            for val, succ in tm + [(None, t["otherwise"])]:
+                if val is not None and val not in (0, 1):
+                    continue
+                truth = (val == 1) or (val is None and any(v_ == 0 for v_, _ in tm))
+                if truth != holds2:
+                    continue
+                reach = {x for x in b.reachable(succ) if not b.blocks[x]["cleanup"]}
+                rets7 = [x for x in reach if b.blocks[x]["term"] and b.blocks[x]["term"]["k"] == "return"]
+                # the exit hands back an empty prefix and touches no entry on the way
+                empties = [x for x in reach if b.blocks[x]["term"] and b.blocks[x]["term"]["k"] == "call" and (b.blocks[x]["term"]["func"].get("fn") or {}).get("name") in ("index_mut", "index", "get_unchecked_mut", "split_at_mut")
+                           and any(isinstance(y, tuple) and y[0] == "agg" and str(y[1]).endswith("RangeTo") and y[2] and const_usize(strip(y[2][0])) == 0 for a7 in b.blocks[x]["term"]["args"][1:] for y in walk(d.expr(a7)))]
+                if rets7 and empties and not any(touches_entries(x) for x in reach if x not in empties):
+                    bad7.append((t.get("span"), c_, "count " + op))
+        R.inst(b.ident, "s7 no exit on the length (or on a count of entries) alone is open to a value of two", not bad7)
         for sp, c_, op in bad7[:1]:
-            R.fail(b.ident, "s7:len-exit:%s%d" % (op, c_), "%s returns without having looked at a single entry whenever the length is two (test `len %s %d`): two entries can be out of place, so the permutation that swaps them is silently not applied" % (b.ident, {"Lt": "<", "Le": "<=", "Gt": ">", "Ge": ">=", "Eq": "==", "Ne": "!="}[op], c_), b.where(sp) if sp else b.where())
+            sym7 = {"Lt": "<", "Le": "<=", "Gt": ">", "Ge": ">=", "Eq": "==", "Ne": "!="}
+            if op.startswith("count "):
+                R.fail(b.ident, "s7:count-exit:%s%d" % (op[6:], c_), "%s hands back an empty trace whenever its count of entries satisfies `count %s %d`, which a count of two does: two displaced entries are exactly a transposition, so the permutation that swaps them is silently not applied" % (b.ident, sym7[op[6:]], c_), b.where(sp) if sp else b.where())
+            else:
+                R.fail(b.ident, "s7:len-exit:%s%d" % (op, c_), "%s returns without having looked at a single entry whenever the length is two (test `len %s %d`): two entries can be out of place, so the permutation that swaps them is silently not applied" % (b.ident, sym7[op], c_), b.where(sp) if sp else b.where())
     return R, n
 
 
